@@ -53,7 +53,9 @@ def obligations(tier):
     return [
         Obl("qmesearch", "search.c",
             progs=[Prog("qmail-local.c", main_as="local_main", cut=["bouncexf", "mailfile", "maildir", "mailprogram", "mailforward"],
-                        sub=[(r"^ int flagforwardonly;$", " extern int flagforwardonly;", 1)])],
+                        # main()'s local flag is made visible to the harness; if a tree keeps the flag at file scope instead
+                        # (same name) there is nothing to edit and the harness's own tentative definition merges with it
+                        sub=[(r"^ int flagforwardonly;$", " extern int flagforwardonly;", (0, 1))])],
             repo=MAIN_UNITS, lib=["ideal_substdio.c", "arena_stralloc.c"],
             defines={"ARENA_CAP": 72, "ARENA_SLOTS": 12}, sysrename=MAIN_SYS,
             grid=[{"EL": n, "DASHLEN": 1} for n in els] + [{"EL": 0, "DASHLEN": 0}, {"EL": 3, "DASHLEN": 1, "NFLAG": 1},
@@ -101,15 +103,15 @@ def obligations(tier):
                 + (["newline_in_sender"] if p["QL"] >= 1 else []) + (["quoted_newline_in_sender"] if p["QL"] >= 2 else [])),
         Obl("dotqmail_loop", "loop.c",
             progs=[Prog("qmail-local.c", main_as="local_main",
-                        cut=["checkhome", "bouncexf", "qmesearch", "mailfile", "maildir", "mailprogram", "mailforward", "count_print"])],
+                        cut=["checkhome", "bouncexf", "mailfile", "maildir", "mailprogram", "mailforward", "count_print"])],
             repo=MAIN_UNITS, lib=["ideal_substdio.c", "arena_stralloc.c"],
-            defines={"ARENA_CAP": 48, "ARENA_SLOTS": 12}, sysrename=["_exit", "umask", "chdir", "time", "strlen", "calloc"],
+            defines={"ARENA_CAP": 48, "ARENA_SLOTS": 12}, sysrename=["_exit", "umask", "chdir", "time", "strlen", "calloc", "stat", "open", "fstat", "close"],
             grid=[{"B": b} for b in (range(1, 10) if quick else range(1, 12))] + [{"B": 5, "NFLAG": 1}],
             unwind=lambda p: {"fmt_ulong": 6},
             unwind_default=lambda p: 40, backend="cadical", timeout=900 if quick else 3400,
             functions=["qmail-local.c:main (whole, instruction loop included)"] + MAIN_FUNCS,
             cuts=["checkhome, bouncexf -> no-ops (obligations qmesearch, bouncexf)",
-                  "qmesearch -> returns a descriptor and a symbolic forward-only flag (contract: obligation qmesearch)",
+                  "qmesearch is the real one, over a one-file model (.qmail-x exists, regular, execute bit symbolic)",
                   "slurpclose -> delivers the symbolic body",
                   "mailfile, maildir, mailprogram, mailforward -> observing stubs with symbolic outcome: success, exit 99 (sets "
                   "flag99), _exit(100), _exit(111) (obligations mailprogram_codes, mailforward, C12)",
